@@ -30,7 +30,7 @@ for r in rows:
     out.append('| %s | %s | %s | %s | %s |' % r[:5])
 n = len(rows); d = sum(1 for r in rows if r[5]); o = sum(1 for r in rows if 'OBSOLETE' in r[4])
 first_miss = sum(1 for r in rows if 'first pass' in r[4])
-out.append('\n%d seeded changes in four rounds (ids _1.._8); %d were not reported on the first pass and led to a '
+out.append('\n%d seeded changes in five rounds (ids _1.._9); %d were not reported on the first pass and led to a '
            'strengthened check; now %d are reported by the check of the property they break, %d became obsolete when the defect they relied '
            'on was repaired.\n' % (n, first_miss, d, o))
 open('/verif/seeded/RESULTS.md', 'w').write('\n'.join(out) + '\n')
